@@ -659,7 +659,7 @@ def gen_restriction(src, fn_name='applyRestriction'):
     clean = strip_comments(src)
     body = find_function_body(clean, r'void\s+Interpolation::' + fn_name + r'\s*\(')
     m = re.search(r'const\s+int\s+coarseNumberSmootherCircles\s*=\s*coarseGrid\.numberSmootherCircles\(\)\s*;', body)
-    if not m:
+    if not m and re.search(r'\bcoarseNumberSmootherCircles\b', body):
         raise TranslateError('%s: coarseNumberSmootherCircles is not coarseGrid.numberSmootherCircles()' % fn_name)
     loops = innermost_loops(body)
     if len(loops) != 2:
@@ -799,6 +799,7 @@ def main():
         exprol = gen_prolongation(open(os.path.join(REPO, 'src/Interpolation/extrapolated_prolongation.cpp')).read(),
                                   'FINE_NODE_EXTRAPOLATED_PROLONGATION', 'applyExtrapolatedProlongation')
         restr = gen_restriction(open(os.path.join(REPO, 'src/Interpolation/restriction.cpp')).read())
+        inj = gen_restriction(open(os.path.join(REPO, 'src/Interpolation/injection.cpp')).read(), 'applyInjection')
         exrestr = gen_restriction(open(os.path.join(REPO, 'src/Interpolation/extrapolated_restriction.cpp')).read(), 'applyExtrapolatedRestriction')
         fmg = gen_prolongation(open(os.path.join(REPO, 'src/Interpolation/fmg_interpolation.cpp')).read(),
                                'FINE_NODE_FMG_INTERPOLATION', 'applyFMGInterpolation')
@@ -830,6 +831,9 @@ def main():
         out += '  (* applyRestriction (src/Interpolation/restriction.cpp), loop nest  for (%s) for (%s); x indexed by fine nodes *)\n' % (oh, ih)
         out += '  Definition gen_restriction_%s_visits (ic jc : Z) : bool := %s.\n' % (nm, dom)
         out += '  Definition gen_restriction_%s (x : Z -> Z -> S) (ic jc : Z) : list gwrite :=\n    %s.\n' % (nm, term)
+    for nm, (dom, term, oh, ih) in zip(['circle', 'radial'], inj):
+        out += '  (* applyInjection (src/Interpolation/injection.cpp), loop nest  for (%s) for (%s) *)\n' % (oh, ih)
+        out += '  Definition gen_injection_%s (x : Z -> Z -> S) (ic jc : Z) : list gwrite :=\n    %s.\n' % (nm, term)
     for nm, (dom, term, oh, ih) in zip(['circle', 'radial'], exrestr):
         out += '  (* applyExtrapolatedRestriction (src/Interpolation/extrapolated_restriction.cpp), loop nest  for (%s) for (%s) *)\n' % (oh, ih)
         out += '  Definition gen_extrapolated_restriction_%s (x : Z -> Z -> S) (ic jc : Z) : list gwrite :=\n    %s.\n' % (nm, term)
